@@ -103,6 +103,17 @@ def run_one(seed, preset=None, tier="quick", want_case=False):
         raw["n"] = None
         sels.append(Field("h", "hn", [("x", ("var", "n"))]))
         sels.append(Field("h", "hok", [("x", S)]))
+    # a nullable variable (legal through its default) nested at a non-null position, null at run time:
+    # that field must fail, the others must not
+    mk("lst", {"x": ArgDef("x", ("L", NN(N("Int"))))})
+    mk("obj", {"x": ArgDef("x", N("NestIn"))})
+    from simv.model.schema import InputDef
+    schema.add(InputDef("NestIn", {"y": ArgDef("y", NN(N("Int"))), "z": ArgDef("z", N("Int"))}))
+    vardefs.append(("nn", N("Int"), ("int", 1)))
+    raw["nn"] = None
+    sels.append(Field("lst", "nestednull_list", [("x", ("list", [("int", 5), ("var", "nn")]))]))
+    sels.append(Field("obj", "nestednull_obj", [("x", ("obj", [("y", ("var", "nn")), ("z", ("int", 2))]))]))
+    sels.append(Field("lst", "nested_ok", [("x", ("list", [("int", 5), ("int", 6)]))]))
     if vt.chance(40):
         sels = vt.shuffle(sels)
     op = Operation("query", "Q", vardefs, sels)
